@@ -240,6 +240,8 @@ pub struct RunOutcome {
     pub inconclusive: Option<String>,
     /// trace of the last events (only filled when there are findings)
     pub trace_tail: Vec<Value>,
+    /// full recorded history (only kept when there are findings)
+    pub all_events: Vec<super::record::Rec>,
     pub extra: BTreeMap<String, Value>,
 }
 
@@ -598,6 +600,35 @@ pub async fn run_chaos<K: EngineKind>(plan: &Plan, scratch: &Path) -> RunOutcome
     {
         let mut on = c.rec.online();
         on.finish(t);
+        let (mut hf, hs) = super::history::analyze(&on, 3_000_000);
+        // classify linearizability findings: was the offending read served by a leader that had
+        // no fresh quorum (the C12 condition) at that moment?
+        for f in hf.iter_mut() {
+            if f.property == "C11" || f.property == "C10" {
+                let ids: Vec<u64> = f.detail["frontier_ops_that_cannot_be_ordered"]
+                    .as_array()
+                    .map(|a| a.iter().filter_map(|x| x["op"].as_u64()).collect())
+                    .unwrap_or_else(|| f.detail["read_op"].as_u64().into_iter().collect());
+                let unbacked = ids.iter().any(|id| {
+                    let (Some((_, node, _, t0)), Some((_, t1))) = (on.ops.get(id), on.results.get(id)) else { return false };
+                    on.lease.unbacked_serves.iter().any(|(n, t, _)| n == node && *t >= *t0 && *t <= *t1)
+                });
+                if unbacked {
+                    f.signature = format!("{}:read-served-by-leader-without-fresh-quorum", f.signature);
+                }
+            }
+        }
+        on.findings.extend(hf);
+        let lf = std::mem::take(&mut on.lease.findings);
+        on.findings.extend(lf);
+        out.counters.insert("lease_serves".into(), on.lease.lease_serves);
+        out.counters.insert("lease_serves_checked".into(), on.lease.lease_serves_checked);
+        out.counters.insert("lin_serves".into(), on.lease.lin_serves);
+        out.counters.insert("unbacked_leader_reads".into(), on.lease.unbacked_serves.len() as u64);
+        out.counters.insert("lin_keys_checked".into(), hs.keys_checked);
+        out.counters.insert("lin_ops_checked".into(), hs.ops_checked);
+        out.counters.insert("lin_inconclusive".into(), hs.lin_inconclusive);
+        out.counters.insert("final_reads".into(), hs.final_reads);
     }
 
     // ---- collect ----
@@ -634,11 +665,7 @@ pub async fn run_chaos<K: EngineKind>(plan: &Plan, scratch: &Path) -> RunOutcome
         }
     }
     if !out.findings.is_empty() {
-        let evs = c.rec.snapshot();
-        let first_t = out.findings.iter().map(|f| f.t).min().unwrap_or(0);
-        // events around the first finding
-        let lo = evs.iter().position(|e| e.t + 600 >= first_t).unwrap_or(0);
-        out.trace_tail = evs.iter().skip(lo).take(400).map(ev_json).collect();
+        out.all_events = c.rec.snapshot();
     }
     c.shutdown_all().await;
     out
@@ -665,4 +692,15 @@ pub fn run_plan(plan: &Plan, scratch_root: &Path) -> RunOutcome {
     drop(rt);
     let _ = std::fs::remove_dir_all(&scratch);
     out
+}
+
+impl RunOutcome {
+    /// events in the window leading to time `t` (at most `max` of them, heartbeats thinned)
+    pub fn trace_around(&self, t: u64, before_ms: u64, max: usize) -> Vec<Value> {
+        let lo = t.saturating_sub(before_ms);
+        let sel: Vec<&super::record::Rec> =
+            self.all_events.iter().filter(|e| e.t >= lo && e.t <= t + 20).collect();
+        let skip = sel.len().saturating_sub(max);
+        sel.into_iter().skip(skip).map(ev_json).collect()
+    }
 }
